@@ -1,4 +1,5 @@
 import AsyncsshModel.Model.Rekey
+import AsyncsshModel.Lemmas.RekeySim
 import AsyncsshModel.Gen.C11
 /-
   C11 — Re-keying is invisible to applications and really changes keys.
@@ -950,5 +951,162 @@ theorem fresh_endpoint_good (server : Bool) :
   · intro p hp; cases hp
   · intro p hp; cases hp
   · intro w hw; cases hw
+
+/-! ### the handshake itself never fails, under every interleaving -/
+
+open AsyncsshModel.RekeyAbs in
+/-- everything the global argument needs about a reachable state of the pair -/
+structure FullInv (y : Sys) : Prop where
+  si : SysInv y
+  lc : Loc y.c
+  ls : Loc y.s
+  rc : y.c.server = false
+  rs : y.s.server = true
+  ab : reach.contains (absSys y) = true
+
+/-- what upper layers may submit: application-level packets (anything above the key-exchange range) -/
+def sysAppOnly : List SysEv → Prop
+  | [] => True
+  | .submitC p :: r => MSG_KEX_LAST < p.type ∧ sysAppOnly r
+  | .submitS p :: r => MSG_KEX_LAST < p.type ∧ sysAppOnly r
+  | _ :: r => sysAppOnly r
+
+theorem app_ne_newkeys (t : Nat) (h : MSG_KEX_LAST < t) : t ≠ MSG_NEWKEYS := by
+  simp only [MSG_KEX_LAST] at h
+  simp only [MSG_NEWKEYS]; omega
+
+open AsyncsshModel.RekeyAbs in
+theorem fullInv_init : FullInv Sys.init :=
+  ⟨sysInv_init, ⟨rfl, rfl, rfl, by intro p hp; cases hp⟩, ⟨rfl, rfl, rfl, by intro p hp; cases hp⟩, rfl, rfl,
+    init_reach⟩
+
+open AsyncsshModel.RekeyAbs in
+theorem fullInv_step (y : Sys) (ev : SysEv) (h : FullInv y)
+    (hev : match ev with | .submitC p => MSG_KEX_LAST < p.type | .submitS p => MSG_KEX_LAST < p.type | _ => True) :
+    FullInv (sysStep y ev) := by
+  have hnf := reach_no_failure _ h.ab
+  cases ev with
+  | submitC p =>
+    have hsi := sysStep_inv y (.submitC p) h.si (app_ne_newkeys _ hev)
+    obtain ⟨lo, sv, habs⟩ := sys_submitC y p h.lc hev h.si.bc
+    refine ⟨hsi, lo, h.ls, sv.trans h.rc, h.rs, ?_⟩
+    simp only [sysStep]
+    rcases habs with e | e
+    · rw [e]; exact h.ab
+    · rw [e]; exact reach_closed _ _ h.ab
+  | submitS p =>
+    have hsi := sysStep_inv y (.submitS p) h.si (app_ne_newkeys _ hev)
+    obtain ⟨lo, sv, habs⟩ := sys_submitS y p h.ls hev h.si.bs
+    refine ⟨hsi, h.lc, lo, h.rc, sv.trans h.rs, ?_⟩
+    simp only [sysStep]
+    rcases habs with e | e
+    · rw [e]; exact h.ab
+    · rw [e]; exact reach_closed _ _ h.ab
+  | limitC =>
+    have hsi := sysStep_inv y .limitC h.si trivial
+    exact ⟨hsi, ⟨h.lc.auth, h.lc.kc, h.lc.excl, h.lc.q⟩, h.ls, h.rc, h.rs, h.ab⟩
+  | limitS =>
+    have hsi := sysStep_inv y .limitS h.si trivial
+    exact ⟨hsi, h.lc, ⟨h.ls.auth, h.ls.kc, h.ls.excl, h.ls.q⟩, h.rc, h.rs, h.ab⟩
+  | deliverCS =>
+    have hsi := sysStep_inv y .deliverCS h.si trivial
+    cases hw : y.c.out[y.cDelivered]? with
+    | none =>
+      have : sysStep y .deliverCS = y := by simp [sysStep, hw]
+      rw [this]; exact h
+    | some w =>
+      have hfs : y.s.failed = false := hnf.2
+      have hep : w.epoch = y.s.recvEpoch := by
+        rw [h.si.rs hfs]; exact epochsOK_get 1 _ _ w h.si.kc.ok hw
+      obtain ⟨lo, sv, habs⟩ := sys_deliverCS y w hw h.ls h.rs hfs hep h.si.bs
+      have hst : sysStep y .deliverCS = { y with s := recvPacket y.s w, cDelivered := y.cDelivered + 1 } := by
+        simp [sysStep, hw]
+      rw [hst] at hsi ⊢
+      refine ⟨hsi, h.lc, lo, h.rc, sv.trans h.rs, ?_⟩
+      rcases habs with e | ⟨b, e⟩
+      · rw [e]; exact h.ab
+      · rw [e]; exact reach_closed _ _ h.ab
+  | deliverSC =>
+    have hsi := sysStep_inv y .deliverSC h.si trivial
+    cases hw : y.s.out[y.sDelivered]? with
+    | none =>
+      have : sysStep y .deliverSC = y := by simp [sysStep, hw]
+      rw [this]; exact h
+    | some w =>
+      have hfc : y.c.failed = false := hnf.1
+      have hep : w.epoch = y.c.recvEpoch := by
+        rw [h.si.rc hfc]; exact epochsOK_get 1 _ _ w h.si.ks.ok hw
+      obtain ⟨lo, sv, habs⟩ := sys_deliverSC y w hw h.lc h.rc hfc hep h.si.bc
+      have hst : sysStep y .deliverSC = { y with c := recvPacket y.c w, sDelivered := y.sDelivered + 1 } := by
+        simp [sysStep, hw]
+      rw [hst] at hsi ⊢
+      refine ⟨hsi, lo, h.ls, sv.trans h.rc, h.rs, ?_⟩
+      rcases habs with e | ⟨b, e⟩
+      · rw [e]; exact h.ab
+      · rw [e]; exact reach_closed _ _ h.ab
+
+theorem fullInv_run (evs : List SysEv) (y : Sys) (h : FullInv y) (hn : sysAppOnly evs) : FullInv (sysRun y evs) := by
+  unfold sysRun
+  induction evs generalizing y with
+  | nil => exact h
+  | cons ev rest ih =>
+    simp only [List.foldl_cons]
+    cases ev with
+    | submitC p => exact ih _ (fullInv_step y _ h hn.1) hn.2
+    | submitS p => exact ih _ (fullInv_step y _ h hn.1) hn.2
+    | limitC => exact ih _ (fullInv_step y _ h trivial) hn
+    | limitS => exact ih _ (fullInv_step y _ h trivial) hn
+    | deliverCS => exact ih _ (fullInv_step y _ h trivial) hn
+    | deliverSC => exact ih _ (fullInv_step y _ h trivial) hn
+
+open AsyncsshModel.RekeyAbs in
+/-- **Re-keying never fails, whoever starts it and however the two directions interleave.**  From a freshly
+    keyed, authenticated pair, under every sequence of application sends on both sides, limit expiries on both
+    sides (so: re-exchanges started by the client, by the server, by both at once, repeatedly, while the previous
+    one is still finishing) and packet deliveries in either direction, neither endpoint ever fails: no packet
+    meets the wrong keys, no KEXINIT arrives while an exchange is active, no KEX_INIT / KEX_REPLY arrives outside
+    an exchange or at the wrong role, no NEWKEYS arrives before receive keys are staged. -/
+theorem rekey_never_fails (evs : List SysEv) (hn : sysAppOnly evs) :
+    (sysRun Sys.init evs).c.failed = false ∧ (sysRun Sys.init evs).s.failed = false := by
+  have h := fullInv_run evs Sys.init fullInv_init hn
+  have := reach_no_failure _ h.ab
+  exact this
+
+open AsyncsshModel.RekeyAbs in
+/-- **Re-keying cannot stall**: whenever every key-exchange message written so far has been delivered, both ends
+    are back in the idle phase (`kexComplete`), no key switch is pending, and therefore (`all_sent_when_idle`)
+    nothing is held back in either deferred queue. -/
+theorem rekey_completes_when_drained (evs : List SysEv) (hn : sysAppOnly evs)
+    (hc : cproj ((sysRun Sys.init evs).c.out.drop (sysRun Sys.init evs).cDelivered) = [])
+    (hs : cproj ((sysRun Sys.init evs).s.out.drop (sysRun Sys.init evs).sDelivered) = []) :
+    let y := sysRun Sys.init evs
+    y.c.kexComplete = true ∧ y.s.kexComplete = true ∧ y.c.nextRecvReady = false ∧ y.s.nextRecvReady = false := by
+  have h := fullInv_run evs Sys.init fullInv_init hn
+  obtain ⟨p1, p2, n1, n2⟩ := reach_quiescent _ h.ab hc hs
+  simp only
+  have idle_kc : ∀ e : Endpoint, Loc e → (absE e).ph = .idle → e.kexComplete = true := by
+    intro e hl hp
+    rw [hl.kc]
+    cases h1 : e.kexActive <;> cases h2 : e.kexinitSent <;> simp [absE, h1, h2] at hp ⊢
+  exact ⟨idle_kc _ h.lc p1, idle_kc _ h.ls p2, n1, n2⟩
+
+open AsyncsshModel.RekeyAbs in
+/-- at most three key-exchange messages are ever in flight in one direction (the handshake is self-clocking) -/
+theorem rekey_inflight_bounded (evs : List SysEv) (hn : sysAppOnly evs) :
+    (cproj ((sysRun Sys.init evs).c.out.drop (sysRun Sys.init evs).cDelivered)).length ≤ 3 ∧
+    (cproj ((sysRun Sys.init evs).s.out.drop (sysRun Sys.init evs).sDelivered)).length ≤ 3 := by
+  have h := fullInv_run evs Sys.init fullInv_init hn
+  have h1 := reach_inflight_all
+  rw [List.all_eq_true] at h1
+  have h2 := h1 _ (by simpa using h.ab)
+  simp only [absSys, Bool.and_eq_true] at h2
+  exact ⟨of_decide_eq_true h2.1, of_decide_eq_true h2.2⟩
+
+/-- the hypothesis of `rekey_never_fails` is met by the simultaneous-start schedule of `simultaneous_example`
+    (and by any schedule whose submissions are channel data) -/
+theorem simultaneous_schedule_admissible :
+    sysAppOnly [.submitC (data 1), .limitC, .limitS, .submitC (data 2), .submitS (data 3),
+      .deliverCS, .deliverCS, .deliverCS, .deliverCS, .deliverSC, .deliverSC, .submitC (data 4), .deliverSC] := by
+  simp [sysAppOnly, data, MSG_KEX_LAST]
 
 end AsyncsshModel.C11
